@@ -736,6 +736,15 @@ func execVerifyDS(f []string) vlib.Res {
 		}
 		tag = joinTags(tag, fmt.Sprintf("anchored%d", min(n, 3)))
 	}
+	if or == "ok" {
+		if o := guarded("dsv/VerifyDSWithWork", func() {
+			if w := checkDSWork(keyMap, set, got, len(dss)*max(1, len(keys)), len(f[3])); w != "" {
+				or = w
+			}
+		}); o != "" {
+			or = o
+		}
+	}
 	if slow {
 		or = "FAIL sig=dsv/super-linear"
 	}
@@ -1004,6 +1013,130 @@ func canonCol(ws []wireRR) string {
 	return strings.Join(parts, ",")
 }
 
+// fakeWork is a work governor with a fixed budget of public-key operations
+// and per-RRset / per-signature candidate ceilings.
+type fakeWork struct {
+	budget, begins, releases int
+	maxCand, maxSet          uint32
+	refused                  bool
+	afterRefusal             int
+}
+
+var errBudget = errors.New("verif: work budget exhausted")
+
+func (w *fakeWork) CheckDNSKEYCandidate(used uint32) error {
+	if used >= w.maxCand {
+		w.refused = true
+		return errBudget
+	}
+	return nil
+}
+func (w *fakeWork) CheckRRsetSignature(used uint32) error {
+	if used >= w.maxSet {
+		w.refused = true
+		return errBudget
+	}
+	return nil
+}
+func (w *fakeWork) begin() (func(), error) {
+	if w.refused {
+		w.afterRefusal++
+	}
+	if w.begins >= w.budget {
+		w.refused = true
+		return nil, errBudget
+	}
+	w.begins++
+	return func() { w.releases++ }, nil
+}
+func (w *fakeWork) BeginSignature() (func(), error) { return w.begin() }
+func (w *fakeWork) BeginDSDigest() (func(), error)  { return w.begin() }
+
+// checkSigWork runs VerifyRRSIGWithWork under an unlimited and under a tight governor: the governor
+// may only turn a verdict into a work error, never into an acceptance; every slot taken is released;
+// nothing is attempted after a refusal; the number of public-key operations is bounded by
+// (signatures x keys).
+func checkSigWork(zone string, keyMap map[uint16][]*dns.DNSKEY, msg *dns.Msg, plain bool, bound, salt int) string {
+	free := &fakeWork{budget: 1 << 30, maxCand: 1 << 30, maxSet: 1 << 30}
+	ok, err := dnssec.VerifyRRSIGWithWork(zone, keyMap, msg, free)
+	if (ok && err == nil) != plain || dnssec.IsWorkError(err) {
+		return "FAIL sig=vfy/VerifyRRSIGWithWork/unlimited-governor-changes-verdict"
+	}
+	if free.begins != free.releases {
+		return "FAIL sig=vfy/VerifyRRSIGWithWork/slot-not-released"
+	}
+	if free.begins > bound {
+		return fmt.Sprintf("FAIL sig=vfy/VerifyRRSIGWithWork/more-operations-than-candidates begins=%d bound=%d", free.begins, bound)
+	}
+	tight := &fakeWork{budget: salt % 4, maxCand: uint32(1 + salt%3), maxSet: uint32(1 + (salt/3)%3)}
+	ok, err = dnssec.VerifyRRSIGWithWork(zone, keyMap, msg, tight)
+	switch {
+	case tight.begins != tight.releases:
+		return "FAIL sig=vfy/VerifyRRSIGWithWork/slot-not-released"
+	case tight.afterRefusal > 0:
+		return "FAIL sig=vfy/VerifyRRSIGWithWork/work-after-refusal"
+	case ok && err == nil && !plain:
+		return "FAIL sig=vfy/VerifyRRSIGWithWork/budget-turns-rejection-into-acceptance"
+	case dnssec.IsWorkError(err) && ok:
+		return "FAIL sig=vfy/VerifyRRSIGWithWork/work-error-with-ok"
+	case !dnssec.IsWorkError(err) && (ok && err == nil) != plain:
+		return "FAIL sig=vfy/VerifyRRSIGWithWork/verdict-differs-without-work-error"
+	case tight.refused && !dnssec.IsWorkError(err) && !(ok && err == nil):
+		// a refusal must surface as a work error (terminal), not as an ordinary validation failure
+		return "FAIL sig=vfy/VerifyRRSIGWithWork/refusal-reported-as-bogus"
+	}
+	return ""
+}
+
+// checkDSWork: the same contract for VerifyDSWithWork.
+func checkDSWork(keyMap map[uint16][]*dns.DNSKEY, set []dns.RR, plain bool, bound, salt int) string {
+	free := &fakeWork{budget: 1 << 30, maxCand: 1 << 30, maxSet: 1 << 30}
+	_, err := dnssec.VerifyDSWithWork(keyMap, set, free)
+	if (err == nil) != plain || dnssec.IsWorkError(err) {
+		return "FAIL sig=dsv/VerifyDSWithWork/unlimited-governor-changes-verdict"
+	}
+	if free.begins != free.releases {
+		return "FAIL sig=dsv/VerifyDSWithWork/slot-not-released"
+	}
+	if free.begins > bound {
+		return fmt.Sprintf("FAIL sig=dsv/VerifyDSWithWork/more-digests-than-candidates begins=%d bound=%d", free.begins, bound)
+	}
+	tight := &fakeWork{budget: salt % 3, maxCand: uint32(1 + salt%2), maxSet: 1 << 30}
+	_, err = dnssec.VerifyDSWithWork(keyMap, set, tight)
+	switch {
+	case tight.begins != tight.releases:
+		return "FAIL sig=dsv/VerifyDSWithWork/slot-not-released"
+	case tight.afterRefusal > 0:
+		return "FAIL sig=dsv/VerifyDSWithWork/work-after-refusal"
+	case err == nil && !plain:
+		return "FAIL sig=dsv/VerifyDSWithWork/budget-turns-rejection-into-acceptance"
+	case !dnssec.IsWorkError(err) && (err == nil) != plain:
+		return "FAIL sig=dsv/VerifyDSWithWork/verdict-differs-without-work-error"
+	case tight.refused && !dnssec.IsWorkError(err) && err != nil:
+		return "FAIL sig=dsv/VerifyDSWithWork/refusal-reported-as-bogus"
+	}
+	return ""
+}
+
+// targetsCol: presentation target of each CNAME / DNAME record as the library unpacked it.
+func targetsCol(rrs []dns.RR) string {
+	if len(rrs) == 0 {
+		return "-"
+	}
+	parts := make([]string, len(rrs))
+	for i, rr := range rrs {
+		switch x := rr.(type) {
+		case *dns.CNAME:
+			parts[i] = hexStr(x.Target)
+		case *dns.DNAME:
+			parts[i] = hexStr(x.Target)
+		default:
+			parts[i] = "-"
+		}
+	}
+	return strings.Join(parts, ",")
+}
+
 // guarded runs f and turns a panic of the code under test into a named failure.
 func guarded(entry string, f func()) (oracle string) {
 	defer func() {
@@ -1070,6 +1203,7 @@ func collectedIdx(ws []wireRR, nAns int, zw []byte) (keep []int, fatal bool) {
 		inZone := labelSuffix(w.owner, zw)
 		auth := i >= nAns
 		switch {
+		case refSynthesised(ws, i, zw): // RFC 6672 §5.3.1: the DNAME's signature covers it
 		case auth && w.typ == dns.TypeNS:
 		case !inZone && auth:
 		case !inZone:
@@ -1079,6 +1213,64 @@ func collectedIdx(ws []wireRR, nAns int, zw []byte) (keep []int, fatal bool) {
 		}
 	}
 	return
+}
+
+// refSynthesised is RFC 6672 §3.3 on wire labels: record i is a CNAME, and some DNAME of the
+// message inside the zone (not at the root) owns a proper ancestor D of its owner O with
+// target(CNAME) = (O minus D) + target(DNAME), compared case-insensitively.
+func refSynthesised(ws []wireRR, i int, zw []byte) bool {
+	if ws[i].typ != dns.TypeCNAME {
+		return false
+	}
+	ol, _, ok1 := splitWireName(ws[i].owner)
+	tl, n, ok2 := splitWireName(ws[i].rdata)
+	if !ok1 || !ok2 || n != len(ws[i].rdata) {
+		return false
+	}
+	for _, d := range ws {
+		if d.typ != dns.TypeDNAME || !labelSuffix(d.owner, zw) {
+			continue
+		}
+		dl, _, ok3 := splitWireName(d.owner)
+		dtl, m, ok4 := splitWireName(d.rdata)
+		if !ok3 || !ok4 || m != len(d.rdata) || len(dl) == 0 || len(ol) <= len(dl) || !labelSuffix(ws[i].owner, d.owner) {
+			continue
+		}
+		want := append(append([][]byte{}, ol[:len(ol)-len(dl)]...), dtl...)
+		if len(want) != len(tl) {
+			continue
+		}
+		same := true
+		for k := range want {
+			same = same && bytes.Equal(lowerBytes(want[k]), lowerBytes(tl[k]))
+		}
+		if same {
+			return true
+		}
+	}
+	return false
+}
+
+// rootTargetSynthesis: some CNAME of the message is the RFC 6672 synthesis of an in-zone DNAME whose target is the root.
+func rootTargetSynthesis(ws []wireRR, zw []byte) bool {
+	for i := range ws {
+		if !refSynthesised(ws, i, zw) {
+			continue
+		}
+		var nonRoot []wireRR
+		for _, w := range ws {
+			if !(w.typ == dns.TypeDNAME && len(w.rdata) == 1) {
+				nonRoot = append(nonRoot, w)
+			}
+		}
+		for j := range nonRoot {
+			if bytes.Equal(nonRoot[j].owner, ws[i].owner) && nonRoot[j].typ == ws[i].typ && bytes.Equal(nonRoot[j].rdata, ws[i].rdata) &&
+				!refSynthesised(nonRoot, j, zw) {
+				return true
+			}
+		}
+	}
+	return false
 }
 
 type rrGroup struct {
@@ -1164,7 +1356,7 @@ func msgCols(zone string, nAns int, keys []*dns.DNSKEY, sigs []*dns.RRSIG, all [
 
 // vfy msg z=<zonepres-hex> k=<k;k> s=<s;s> rr=<wires> a=<records in the answer section> o= c= sw= p= hx=
 func execVerifyMsg(f []string) vlib.Res {
-	if len(f) != 12 {
+	if len(f) != 13 {
 		return vlib.Res{Impl: "bad-op"}
 	}
 	zone := unStr(strings.TrimPrefix(f[2], "z="))
@@ -1190,7 +1382,8 @@ func execVerifyMsg(f []string) vlib.Res {
 	}
 	now := time.Now().Unix()
 	sw, per, hx := msgCols(zone, nAns, keys, sigs, ws, now)
-	if f[7] != "o="+ownersCol(ws) || f[8] != "c="+canonCol(ws) || f[9] != "sw="+sw || f[10] != "p="+per || f[11] != "hx="+hx {
+	if f[7] != "o="+ownersCol(ws) || f[8] != "c="+canonCol(ws) || f[9] != "sw="+sw || f[10] != "p="+per || f[11] != "hx="+hx ||
+		f[12] != "tg="+targetsCol(rrs) {
 		return vlib.Res{Impl: "bad-op"}
 	}
 	msg := new(dns.Msg)
@@ -1209,6 +1402,10 @@ func execVerifyMsg(f []string) vlib.Res {
 		return vlib.Res{Impl: "panic", Oracle: o, Tags: "nt,panic"}
 	}
 	got := good && err == nil
+	workOracle := ""
+	if o := guarded("vfy/VerifyRRSIGWithWork", func() { workOracle = checkSigWork(zone, keyMap, msg, got, len(sigs)*max(1, len(keys)), len(f[5])) }); o != "" {
+		workOracle = o
+	}
 
 	// reference, written from RFC 4035 §5.3: every RRset of the zone that has to be signed (answer
 	// records; authority records other than NS) is covered by a signature that is inside its validity
@@ -1264,6 +1461,10 @@ func execVerifyMsg(f []string) vlib.Res {
 	case got && !want && !wantStrict:
 		or = "FAIL sig=vfy/VerifyRRSIG/accepts-unverifiable-rrset"
 		tag = "permissive"
+	case !got && want && rootTargetSynthesis(ws, zw):
+		// candidate finding (notes/C14.md): owner[:prev] + "." is spelled "x..", so the synthesis of a
+		// DNAME whose target is the root is not recognised and its CNAME is asked for a signature
+		tag = "stricter:dname-root-target"
 	case !got && want:
 		or = "FAIL sig=vfy/VerifyRRSIG/rejects-verifiable-rrset err=" + errEnum(err)
 		tag = "stricter"
@@ -1271,6 +1472,9 @@ func execVerifyMsg(f []string) vlib.Res {
 		tag = "agree-accept"
 	case wantStrict:
 		tag = "stricter:documented"
+	}
+	if workOracle != "" && or == "ok" {
+		or = workOracle
 	}
 	if slow {
 		or = "FAIL sig=vfy/VerifyRRSIG/super-linear"
